@@ -15,7 +15,6 @@ import (
 
 	"github.com/pinealctx/neptune/stcp"
 
-	"nvharness/lib/sched"
 )
 
 // ---------------------------------------------------------------- fault-injecting connection (server side of a net.Pipe)
@@ -306,7 +305,6 @@ type world struct {
 	all    []*cstate
 	rej    int
 	nconn  int
-	sc     *sched.S
 	hits   []hit
 	dead   string // harness-level failure text, reported in every following line
 }
@@ -316,7 +314,7 @@ type hit struct{ key, what string }
 var worldSeq int64
 
 func newWorld(max int, mode string) *world {
-	w := &world{mode: mode, max: max, rt: longTimeout, wt: longTimeout, h: &handler{byID: map[string]*cstate{}}, sc: sched.New()}
+	w := &world{mode: mode, max: max, rt: longTimeout, wt: longTimeout, h: &handler{byID: map[string]*cstate{}}}
 	switch mode {
 	case "rt":
 		w.rt = shortTimeout
@@ -347,7 +345,7 @@ var loopRe = regexp.MustCompile(`stcp\.\(\*Session\)\.loop(?:Send|Receive)\((0x[
 // loopsOf counts, per session pointer, the goroutines still inside loopSend / loopReceive.
 func loopsOf() map[string]int {
 	m := map[string]int{}
-	for _, g := range sched.Snapshot() {
+	for _, g := range snapshot() {
 		for _, mm := range loopRe.FindAllStringSubmatch(g.Text, -1) {
 			m[mm[1]]++
 		}
@@ -369,13 +367,26 @@ func (w *world) waitFor(cond func() bool) {
 	sleep := 200 * time.Microsecond
 	for {
 		if w.mode != "tcp" {
-			if err := w.sc.Settle(); err != nil {
+			if err := settleQuiet(); err != nil {
 				w.dead = "settle:" + strings.SplitN(err.Error(), "\n", 2)[0]
 				return
 			}
 		}
-		if cond() || time.Now().After(deadline) {
+		if time.Now().After(deadline) {
 			return
+		}
+		if cond() {
+			// what made the condition true may still be unwinding: settle once more and look again
+			if w.mode == "tcp" {
+				return
+			}
+			if err := settleQuiet(); err != nil {
+				w.dead = "settle:" + strings.SplitN(err.Error(), "\n", 2)[0]
+				return
+			}
+			if cond() {
+				return
+			}
 		}
 		time.Sleep(sleep)
 		if sleep < 4*time.Millisecond {
@@ -388,7 +399,7 @@ func (w *world) waitFor(cond func() bool) {
 func (w *world) settle(cond func() bool) {
 	switch w.mode {
 	case "pipe":
-		if err := w.sc.Settle(); err != nil {
+		if err := settleQuiet(); err != nil {
 			w.dead = "settle:" + strings.SplitN(err.Error(), "\n", 2)[0]
 		}
 	case "rt":
@@ -424,13 +435,15 @@ func (w *world) connect() string {
 	cs.cond = sync.NewCond(&cs.mu)
 	countBefore := int(w.mgr.ConnCount())
 	if w.mode == "tcp" {
+		// the handler looks the connection up by the client's address: keep the registry locked until it is known
+		w.h.mu.Lock()
 		c, err := net.DialTimeout("tcp", w.tl.Addr().String(), ceiling)
 		if err != nil {
+			w.h.mu.Unlock()
 			return "dialerr"
 		}
 		cs.peer = c
 		cs.id = c.LocalAddr().String()
-		w.h.mu.Lock()
 		w.h.byID[cs.id] = cs
 		w.h.mu.Unlock()
 		w.all = append(w.all, cs)
@@ -461,13 +474,6 @@ func (w *world) connect() string {
 	}
 	if w.mode == "pipe" {
 		w.settle(nil)
-		if os.Getenv("C16DBG") != "" {
-			dbgSettle()
-			if !registered() && !closedSeen() {
-				dbgDump()
-				os.Exit(3)
-			}
-		}
 	} else {
 		w.waitFor(func() bool { return registered() || closedSeen() })
 	}
@@ -511,7 +517,7 @@ func (w *world) peerWrite(cs *cstate, b byte) bool {
 }
 
 func (w *world) op(f []string) string {
-	if len(f) < 2 {
+	if len(f) < 2 || (f[0] == "send") != (len(f) == 3) || len(f) > 3 {
 		return "bad-op"
 	}
 	k, err := strconv.Atoi(f[1])
@@ -808,7 +814,7 @@ func (w *world) destroy() {
 				if len(loopsOf()) == 0 {
 					break
 				}
-			} else if w.sc.Settle() == nil {
+			} else if settleQuiet() == nil {
 				break
 			}
 		}
